@@ -591,6 +591,31 @@ def _scalarise_tables(node):
     rec(node)
 
 
+def _fold_const_getattr(node):
+    """getattr(x, 'name') with a literal name (left by spelling out a loop over names) is x.name"""
+    def rec(x):
+        for fld, val in ast.iter_fields(x):
+            if isinstance(val, list):
+                for i_, y in enumerate(val):
+                    if isinstance(y, ast.AST):
+                        val[i_] = fix(y)
+            elif isinstance(val, ast.AST):
+                setattr(x, fld, fix(val))
+
+    def fix(y):
+        rec(y)
+        if isinstance(y, ast.Call) and isinstance(y.func, ast.Name) and y.func.id == 'getattr' and len(y.args) == 2 and \
+           not y.keywords and isinstance(y.args[1], ast.Constant) and isinstance(y.args[1].value, str) and \
+           y.args[1].value.isidentifier():
+            new = ast.Attribute(value=y.args[0], attr=y.args[1].value, ctx=ast.Load())
+            return ast.copy_location(new, y)
+        if isinstance(y, ast.BinOp) and isinstance(y.op, ast.Add) and isinstance(y.left, ast.Constant) and \
+           isinstance(y.right, ast.Constant) and isinstance(y.left.value, str) and isinstance(y.right.value, str):
+            return ast.copy_location(ast.Constant(value=y.left.value + y.right.value), y)     # 'matrix_' + 'sign'
+        return y
+    rec(node)
+
+
 def _propagate_self_aliases(node):
     """`pulses = self.pulses` (assigned once, the attribute not stored in the function): the local is another
     name of the attribute - its loads are written as the attribute, so that rules keyed on `self.x.y` see them"""
@@ -663,6 +688,7 @@ def flatten(ctx, func, depth=3):
     node.body = doc + fl.block(body, [func.qual])
     _scalarise_tables(node)
     _propagate_self_aliases(node)
+    _fold_const_getattr(node)
     ast.fix_missing_locations(node)
     _set_parents(node)
     g = Func(func.module, func.cls, node, func.kind)
